@@ -42,6 +42,8 @@ type C17Case struct {
 	// Aborts: before the parallel batch, this many clients request a ~1 MB response, read 100 bytes and
 	// hang up (the server's response write fails); the later requests must be unaffected
 	Aborts int `json:"aborts,omitempty"`
+	// Clones (sum): this many further files, copies of the generated ones, follow in glob order
+	Clones int `json:"clones,omitempty"`
 }
 
 func noteLastCase(c interface{}) { noteCaseInFlight(c) }
@@ -167,6 +169,12 @@ func runC17(c C17Case, ev *Evid) (fs []Finding) {
 				g.Spec.Writes = append(g.Spec.Writes, SlotWrite{Arch: w.Arch, T: w.T - c.Now + buildNow, V: w.V})
 			}
 			files[i] = g
+		}
+		for j := 0; j < c.Clones; j++ {
+			// more files than any batch / descriptor limit of the reader: copies of the generated ones, later in glob order
+			g := files[j%len(c.Files)]
+			g.Name = fmt.Sprintf("g%03d.wsp", j)
+			files = append(files, g)
 		}
 		if err := buildTree(base, files, buildNow); err != nil {
 			add("setup", "%v", err)
@@ -432,6 +440,9 @@ func genC17(t *rapid.T) C17Case {
 			}
 			c.Files = append(c.Files, TreeFile{Dir: "s1", Name: fmt.Sprintf("f%02d.wsp", i), Spec: FileSpec{L: fl, Writes: genWrites(t, fl, now, valGeneral, 10)}})
 		}
+		if rapid.IntRange(0, 3).Draw(t, "manyFiles") == 0 {
+			c.Clones = rapid.IntRange(25, 200).Draw(t, "clones")
+		}
 		if rapid.IntRange(0, 2).Draw(t, "oneArchive") == 0 {
 			c.ArchiveID = rapid.IntRange(0, len(l.Archives)-1).Draw(t, "archive")
 		}
@@ -452,6 +463,26 @@ func genC17(t *rapid.T) C17Case {
 			nb := rapid.IntRange(20, 60).Draw(t, "burst")
 			for i := 0; i < nb; i++ {
 				c.Requests = append(c.Requests, fmt.Sprintf("/view?file=%%SUB%%/%s/nope%d.wsp&retention=-1&from=%s&until=%s&now=%s", f.Dir, i, civilString(0), civilString(now), civilString(now)))
+			}
+		}
+		if rapid.IntRange(0, 4).Draw(t, "invalidBurst") == 0 {
+			// requests the server must refuse, each for its own reason (the answer names it), in flight together
+			f := c.Files[0]
+			file := "%SUB%/" + f.Dir + "/" + f.Name
+			bad := []string{
+				"/view?file=" + file + "&retention=x&from=" + civilString(0) + "&until=" + civilString(now) + "&now=" + civilString(now),
+				"/view?file=" + file + "&retention=-1&from=yesterday&until=" + civilString(now) + "&now=" + civilString(now),
+				"/view?file=" + file + "&retention=-1&from=" + civilString(0) + "&until=never&now=" + civilString(now),
+				"/view?file=" + file + "&retention=-1&from=" + civilString(0) + "&until=" + civilString(now) + "&now=12345",
+				"/view?retention=-1&from=" + civilString(0) + "&until=" + civilString(now) + "&now=" + civilString(now),
+				"/view-raw?file=" + file + "&retention=1.5",
+				"/sum?item=%SUB%." + replaceSlash(f.Dir) + "&pattern=*.wsp&retention=abc&from=" + civilString(0) + "&until=" + civilString(now) + "&now=" + civilString(now),
+				"/sum?item=%SUB%." + replaceSlash(f.Dir) + "&pattern=*.wsp&retention=-1&from=" + civilString(0) + "&until=" + civilString(now) + "&now=",
+				"/sum?pattern=*.wsp&retention=-1&from=" + civilString(0) + "&until=" + civilString(now) + "&now=" + civilString(now),
+			}
+			nb := rapid.IntRange(8, 40).Draw(t, "invalidCount")
+			for i := 0; i < nb; i++ {
+				c.Requests = append(c.Requests, bad[rapid.IntRange(0, len(bad)-1).Draw(t, "invalidKind")])
 			}
 		}
 		if rapid.IntRange(0, 2).Draw(t, "sameSum") == 0 {
